@@ -3,6 +3,7 @@ C13 — the C-contiguous 2-D skip-ahead path of `bbox` (`carray2_bbox`) computes
 loop; the final emptiness test of `py_bbox`.
 -/
 import Mahotas.Proofs.C13Regions
+import Mahotas.Proofs.C13Com
 namespace Mahotas.C13
 open Mahotas
 
@@ -379,5 +380,40 @@ theorem bboxGeneric_cases (shape : List Nat) (data : List Int) (hlen : data.leng
       intro h; omega
     rw [hb]
     rfl
+
+/-- the indicator image of label `l` -/
+def indicator (labels : List Int) (l : Nat) : List Int := labels.map fun v => if v.toNat = l then 1 else 0
+
+theorem bboxLabeled_eq (shape : List Nat) (labels : List Int) (n : Nat) :
+    bboxLabeled shape labels n =
+      (List.range (n + 1)).flatMap fun l => bboxGeneric shape (indicator labels l) := by
+  unfold bboxLabeled
+  simp only
+  apply List.flatMap_congr
+  intro l hl
+  have hl' : l < n + 1 := List.mem_range.mp hl
+  have hr := modify_fold_slot (fun i (r : List Int) => bboxUpdate r (unravelI shape i))
+    (fun i => (labels.getD i 0).toNat) l (List.range labels.length) (Array.replicate (n + 1) (bboxInit shape))
+  simp only [Array.getElem?_replicate, hl', if_true, Option.map_some] at hr
+  unfold bboxGeneric
+  congr 1
+  rw [Array.getD_eq_getD_getElem?, hr, Option.getD_some]
+  have hlen : (indicator labels l).length = labels.length := by simp [indicator]
+  rw [hlen]
+  have := foldl_filter_map (fun i => decide ((indicator labels l).getD i 0 ≠ 0)) (unravelI shape) bboxUpdate
+    (List.range labels.length) (bboxInit shape)
+  simp only [decide_eq_true_eq] at this
+  rw [this, List.foldl_map]
+  congr 1
+  apply List.filter_congr
+  intro i hi
+  have hi' : i < labels.length := List.mem_range.mp hi
+  have : (indicator labels l).getD i 0 = if (labels.getD i 0).toNat = l then 1 else 0 := by
+    unfold indicator
+    simp [List.getD_eq_getElem?_getD, List.getElem?_map, hi']
+  rw [this]
+  by_cases h : (labels.getD i 0).toNat = l
+  · simp [h]
+  · simp [h]
 
 end Mahotas.C13
